@@ -125,7 +125,7 @@ def stream_bool(ctx, grammars, maxlen, hashseeds):
         strs = [list(x) for x in M.strings(g["nT"], maxlen)]
         if len(strs) > 30:
             strs = strs[:10] + ctx.rng.sample(strs[10:], 20)
-        for _ in range(6):    # sentences of the language (random derivations), so that long strings are not all rejected
+        for _ in range(10):    # sentences of the language (random derivations), so that long strings are not all rejected
             snt = M.random_sentence(ctx.rng, g, maxdepth=ctx.rng.randint(2, 5), maxlen=6)
             if snt is not None and len(snt) <= 6 and snt not in strs:
                 strs.append(snt)
@@ -259,7 +259,7 @@ def run(ctx):
     bg = [M.rand_grammar(ctx.rng, boolean=True, pnull=0.2, punary=0.25) for _ in range(nG)] + [M.rand_leftcorner_grammar(ctx.rng) for _ in range(nG // 2)]
     stream_bool(ctx, bg, 3, seeds[:2])
     # mutual left recursion with further left corners: strings of length 4 are needed to re-enter the cycle at another member
-    stream_bool(ctx, [M.rand_mutual_leftrec_grammar(ctx.rng) for _ in range(nG // 2)], 4, seeds[:2])
+    stream_bool(ctx, [M.rand_mutual_leftrec_grammar(ctx.rng) for _ in range(2 * nG)], 4, seeds[:2])
     stream_float(ctx, 25 if quick else 300, 3)
 
 
